@@ -130,6 +130,8 @@ class Setup(object):
     def restore(self):
         env.raw_conn().deserialize(self.snap)
         env.Ids.n = self.ids_n
+        del env.W.acts[:]       # never-started post-commit activities
+        del env.W.msgs[:]
         env.auth_context.set_ctx(None)
 
     # -- creation of one row (and what it needs) for one project
@@ -252,7 +254,10 @@ def setups(tier):
                 out.append(Setup(t, scope, coll, 'none'))
             if t == 'workflow':
                 for share in ('pending', 'accepted', 'rejected'):
-                    for coll in ('none', 'B-public-first', 'M-private'):
+                    for coll in (('none', 'B-public-first', 'M-private')
+                                 if tier == 'quick' else
+                                 ('none', 'B-private', 'B-public',
+                                  'B-public-first', 'M-private')):
                         out.append(Setup(t, scope, coll, share))
     return out
 
